@@ -640,6 +640,11 @@ def check_property(prop, tier, seed, jobs=4):
             bounded.append({"family": famname, "result": "unavailable: %s" % str(e)[:300]})
             continue
         bounded.append(dict((k, v) for k, v in br.items() if k != "counterexample"))
+        # inputs whose only disagreement is of a kind listed as a KNOWN finding of this family
+        for h in br.get("known_hits", []):
+            kk = next((k for k in known_findings() if k.get("status") == "known" and k.get("obligation") == "BOUNDED::%s" % famname and k.get("kind") == h["kind"]), None)
+            if kk is not None and not any(f0["obligation"] == "BOUNDED::%s" % famname and k0.get("kind") == kk.get("kind") for f0, k0 in known_hits):
+                known_hits.append(({"obligation": "BOUNDED::%s" % famname, "message": h["observed"]}, kk))
         if br["counterexample"]:
             cex = br["counterexample"]
             violations.append((None, {"obligation": "BOUNDED::%s" % famname, "function": "bounded stand-in", "label": famname,
